@@ -113,7 +113,7 @@ def cctor(name, args, eps):
                                               coptz(a['release_level']), coptz(a['loop_level']),
                                               '(Some (I 0%Z))' if off == 'absent' else copt(off, cnum))
     if name == 'cutoff':
-        return '(env_cutoff %s %s %s %s)' % (cnum(eps), cnum(a['release_time']), cnum(a['level']), ccurve(a['curve']))
+        return '(env_cutoff_c %s %s %s %s)' % (cnum(eps), cnum(a['release_time']), cnum(a['level']), ccarg(a['curve']))
     order = [k for k, _ in DEFAULTS[name]]
     terms = [ccarg(a[k]) if k == 'curve' else cnum(a[k]) for k in order]
     if name in ('dadsr', 'adsr'):          # model argument order: ..., curve, bias
@@ -199,7 +199,7 @@ def g_ctor(rng):
         if name == 'step':
             continue
         if k == 'curve':
-            args[k] = g_curve(rng, 0.04) if name == 'cutoff' else cv()
+            args[k] = cv()
         elif k.endswith('time') or k == 'dur':
             args[k] = g_dur(rng)
         else:
@@ -341,6 +341,22 @@ DISTINCT_T = [['I', '1'], ['F', '1/2'], ['I', '2'], ['F', '1/4'], ['I', '4']]
 DISTINCT_C = [['N', 'sin'], ['I', '-3'], ['N', 'hold'], ['F', '5/2'], ['N', 'welch']]
 
 
+def table_names():
+    """names of the shape table of the tree under test (gen/Gen_envtables.v is regenerated before correspond runs)"""
+    try:
+        txt = open(os.path.join(fw.COQ, 'gen', 'Gen_envtables.v')).read()
+        body = txt[txt.index('env_shape_names'):txt.index('env_numeric_shape')]
+        return re.findall(r'\("([^"]*)",', body)
+    except (OSError, ValueError):
+        return []
+
+
+def shape_spellings():
+    names = list(DOC_NAMES) + [n for n in table_names() if n not in DOC_NAMES]
+    scal = [['N', n] for n in names] + [['I', '2'], ['F', '2'], ['I', '-4'], ['F', '5/2'], ['I', '0'], ['I', '1']]
+    return scal + [[x] for x in scal] + [[['N', n], ['N', 'lin']] for n in names] + [[['N', 'lin'], ['N', n]] for n in names]
+
+
 def sweep_cases():
     """explicit zeros for every optional argument (model-level: int 0 and float 0.0), and list lengths
     below / at / above the segment count with pairwise distinct entries (wrap vs clip)"""
@@ -375,6 +391,19 @@ def sweep_cases():
     for r in (0, 1, 2):
         out.append({'k': 'ctor', 'name': 'step', 'args': {'levels': [['I', '3'], ['I', '1']], 'times': [['I', '1'], ['I', '2']],
                                                          'release_level': r, 'loop_level': 0}})
+    # every constructor parameter that takes a shape, in every accepted spelling: every alias of the shape
+    # table (documented names + whatever the tree under test has in its regenerated table), numbers
+    # (2 and 2.0 included: a NUMBER is always shape 5), bare, in a one-element list, in a longer list
+    for sp in shape_spellings():
+        for name in ('perc', 'linen', 'cutoff', 'dadsr', 'adsr', 'asr'):
+            out.append({'k': 'ctor', 'name': name, 'args': {'curve': sp}})
+        pts = [[['I', '0'], ['I', '1']], [['I', '1'], ['F', '1/2']], [['I', '3'], ['I', '2']]]
+        if not is_listspec(sp):
+            out.append({'k': 'ctor', 'name': 'pairs', 'args': {'pairs': pts, 'curves': sp}})
+            out.append({'k': 'ctor', 'name': 'pairs', 'args': {'pairs': pts, 'curves': [sp, ['N', 'lin'], sp]}})
+            out.append({'k': 'ctor', 'name': 'xyc', 'args': {'xyc': [p + [sp] for p in pts]}})
+            out.append({'k': 'fmt', 'env': dict(base, curves=sp)})
+        out.append({'k': 'fmt', 'env': dict(base, curves=sp if is_listspec(sp) else [sp])})
     # xyc / pairs: ties in time (stable order), zero times / levels / curves, one and zero points
     tie = [[['I', '1'], ['I', '5'], ['N', 'sin']], [['I', '0'], ['I', '3'], ['I', '0']], [['F', '1'], ['I', '4'], ['N', 'hold']],
            [['I', '0'], ['I', '2'], ['F', '0']], [['I', '1'], ['I', '1'], ['I', '2']]]
